@@ -238,6 +238,14 @@ def variant_refactor(root):
     # (c) the chained form of two replacements
     _edit(root, PKG + "/luaexec.py", '        path = path.replace(":", "/")\n        path = path.replace(" ", "_")\n',
           '        path = path.replace(":", "/").replace(" ", "_")\n')
+    # (e) a push/pop pair of the expansion path turned into an exception-safe context manager
+    _edit(root, PKG + "/luaexec.py",
+          '                ctx.expand_stack.append("frame:preprocess()")\n                ret = expand_all_templates(v)\n                ctx.expand_stack.pop()\n                return ret\n',
+          '                with expansion_frame(ctx, "frame:preprocess()"):\n                    ret = expand_all_templates(v)\n                return ret\n')
+    _edit(root, PKG + "/luaexec.py", "def _bind(fn: Callable, *bound: Any) -> Callable:",
+          '@contextmanager\ndef expansion_frame(ctx: "Wtp", label: str) -> Iterator[None]:\n    ctx.expand_stack.append(label)\n    try:\n        yield\n'
+          '    finally:\n        ctx.expand_stack.pop()\n\n\ndef _bind(fn: Callable, *bound: Any) -> Callable:')
+    _edit(root, PKG + "/luaexec.py", "from collections import deque\n", "from collections import deque\nfrom collections.abc import Iterator\nfrom contextlib import contextmanager\n")
     # (d) marking statement written with named placeholders is still keyed by title only
     _edit(root, PKG + "/core.py", '"UPDATE pages SET need_pre_expand = 1 WHERE title = ?", (name,)',
           '"UPDATE pages SET need_pre_expand = 1 WHERE title = ?",\n            (name,),')
